@@ -218,6 +218,10 @@ def fault_cases(ctx, index):
     store = ["delimited-file", "fixed-file", "ods", "xlsx", "delimited-stream", "fixed-stream"][index % 6]
     model, table = c04.gen_case(rng, store)
     strip_distinct(model)
+    if model.line_delimiter in ("any", "none"):
+        # the fixed faults below are built around one declared delimiter (without any delimiter a record cut short is
+        # just a shorter last record and there is no delimiter to replace)
+        model.line_delimiter = {"any": None, "none": "lf"}[model.line_delimiter]
     model.fault_api = "rows" if (index // 6) % 2 else "reader"
     if rng.random() < 0.6:
         add_distinct(rng, model)
